@@ -143,3 +143,75 @@ func H_C10_call() {
 	VAssert(L.Get(base) == LNumber(901), "call: caller's values untouched")
 	VReach("end")
 }
+
+
+// C10.nested — a failed protected call made from inside a host function leaves that function's own
+// list exactly as before the function and arguments were pushed.
+//
+//verif:harness prop=C10,C05 tier=quick bounds="host function at depth 1..2 (entered from Lua or from Go) with m<=2 own values makes PCall / CallByParam{Protect} with 0..2 arguments that fails or succeeds; with and without handler"
+func H_C10_nested() {
+	L := newL(Options{}, BaseLibName)
+	m := VChoice(3)
+	nargs := VChoice(3)
+	fail := VChoice(2) == 1
+	withHandler := VChoice(2) == 1
+	viaLua := VChoice(2) == 1
+	useParam := VChoice(2) == 1
+	inner := L.NewFunction(func(L *LState) int {
+		L.Push(LNumber(31))
+		L.Push(LNumber(32))
+		if fail {
+			L.RaiseError("inner failed")
+		}
+		return 1
+	})
+	handler := L.NewFunction(func(L *LState) int { L.Push(LString("handled")); return 1 })
+	ran := false
+	outer := L.NewFunction(func(L *LState) int {
+		ran = true
+		for i := 0; i < m; i++ {
+			L.Push(LNumber(20 + i))
+		}
+		top0 := L.GetTop()
+		var err error
+		var h *LFunction
+		if withHandler {
+			h = handler
+		}
+		if useParam {
+			args := []LValue{LNumber(1), LNumber(2)}[:nargs]
+			err = L.CallByParam(P{Fn: inner, NRet: 1, Protect: true, Handler: h}, args...)
+		} else {
+			L.Push(inner)
+			for i := 0; i < nargs; i++ {
+				L.Push(LNumber(1 + i))
+			}
+			err = L.PCall(nargs, 1, h)
+		}
+		if fail {
+			VAssert(err != nil, "nested: failure reported")
+			VAssert(L.GetTop() == top0, "nested: a failed protected call leaves neither function, arguments nor partial results in the host function's list")
+		} else {
+			VAssert(err == nil, "nested: success")
+			VAssert(L.GetTop() == top0+1 && L.Get(-1) == LNumber(32), "nested: exactly NRet results on top")
+			L.Pop(1)
+		}
+		for i := 0; i < m; i++ {
+			VAssert(L.Get(top0-m+1+i) == LNumber(20+i), "nested: the host function's own values are untouched")
+		}
+		VAssert(L.Get(1) == LNumber(7), "nested: the host function still sees its argument")
+		return 0
+	})
+	L.G.Global.RawSetString("outer", outer)
+	if viaLua {
+		VAssert(L.DoString("local a, b = 1, 2; outer(7); assert(a == 1 and b == 2)") == nil, "nested: Lua caller unaffected")
+	} else {
+		L.Push(LNumber(901))
+		L.Push(outer)
+		L.Push(LNumber(7))
+		L.Call(1, 0)
+		VAssert(L.GetTop() == 1 && L.Get(1) == LNumber(901), "nested: Go caller's stack unaffected")
+	}
+	VAssert(ran, "nested: host function ran")
+	VReach("end")
+}
